@@ -316,10 +316,11 @@ def finish(pm, pid, tier, seed, results, extra, contracts, wall):
     os.makedirs(os.path.join(VERIF, "evidence"), exist_ok=True)
     with open(os.path.join(VERIF, "evidence", "%s.json" % pid), "w") as fh:
         json.dump(ev, fh, indent=1, default=str)
-    for l in known_lines:
-        print(l)
-    for l in out_lines:
-        print(l)
+    seen_lines = set()
+    for l in known_lines + out_lines:
+        if l not in seen_lines:
+            seen_lines.add(l)
+            print(l)
     print("%s: %d functions under contract, %d/%d obligations discharged, %d families, %.1fs wall, exit %d" % (
         pid, len(functions), proved, total, len(fam), wall, exit_code))
     return exit_code, fam
